@@ -62,6 +62,13 @@ def _run_job(job):
             if inst.status == "refuted":
                 ok, detail = vc.replay_native(ob.fn, inst)
                 d["replay"] = {"reproduced": ok, "detail": detail}
+                if not ok and n_falsify < 6:
+                    # the solver's model does not survive float replay: look for a failing input by native sampling
+                    n_falsify += 1
+                    vals, det2 = vc.falsify_natively(ob.fn, inst, seed=int(os.environ.get("VERIF_SEED", "0") or 0))
+                    if vals is not None:
+                        d.update(inputs=_jsonable(vals), backend=inst.backend + "+native-sampling",
+                                 replay={"reproduced": True, "detail": det2, "how": "solver model did not replay on floats; failing input found by running the harness natively on sampled inputs"})
             elif inst.status == "unknown" and n_falsify < 6:
                 n_falsify += 1
                 vals, detail = vc.falsify_natively(ob.fn, inst, seed=int(os.environ.get("VERIF_SEED", "0") or 0))
